@@ -551,7 +551,7 @@ private:
         std::swap(my_monitors, src.my_monitors);
     }
 
-    static constexpr std::ptrdiff_t infinite_capacity = std::ptrdiff_t(~size_type(0) / 2);
+    static constexpr std::ptrdiff_t infinite_capacity = std::ptrdiff_t(~std::size_t(0) / 2);
 
     template <typename... Args>
     void internal_push( Args&&... args ) {
